@@ -291,6 +291,7 @@ class C02(Property):
         except Exception as e:
             return {"raise": type(e).__name__, "_env": fl.make_env(kinds, texts, [])}
         return {"elem": fl.extract(el, schema), "flatten": [list(p) for p in el.flatten(sep)],
+                "addr": [addresses(schema, sep, k) for k, _ in pairs],
                 "_env": fl.make_env(kinds, texts, fl.observed_compounds(el, schema)),
                 "_lens": list_lengths(el, schema)}
 
